@@ -54,6 +54,7 @@ type Fault struct {
 	Kind   string // "backend-close", "backend-rst", "topo" (CLUSTER NODES update adopted by the refresh code)
 	Addr   string // node address (first open connection to it)
 	AfterW int    // enabled once that connection has received this many commands
+	AfterTicks int // enabled once this many TICK events have happened
 	Nodes  []NodeSpec // topo: the new topology
 }
 
@@ -95,6 +96,7 @@ type Scenario struct {
 	Horizon     int // max scheduling steps
 	OrderSites  []string
 	IntnChoice  bool
+	IntnGate    func(w *World) bool // rand.Intn is a choice point only while this holds
 	WriteOracle bool
 	NoBootTick  bool
 	RefreshLoop bool // run the real topology refresh goroutine; synchronised with a barrier at every quiescent point
@@ -329,6 +331,10 @@ func ExecuteWith(sc *Scenario, choose vsys.Chooser, boot func(w *World)) *World 
 	vsys.Choose = choose
 	vsys.WriteOracle = sc.WriteOracle
 	vsys.IntnChoice = sc.IntnChoice
+	vsys.IntnGate = nil
+	if sc.IntnGate != nil {
+		vsys.IntnGate = func() bool { return sc.IntnGate(w) }
+	}
 	vsys.ReuseFds = sc.ReuseFds
 	vsys.OrderSites = map[string]bool{}
 	for _, s := range sc.OrderSites {
@@ -537,7 +543,7 @@ func (w *World) enabled() []event {
 		}
 	}
 	for i, f := range w.Sc.Faults {
-		if w.faultUsed[i] {
+		if w.faultUsed[i] || w.Ticks < f.AfterTicks {
 			continue
 		}
 		if f.Kind == "topo" || f.Kind == "nodes-change" {
